@@ -362,6 +362,10 @@ func determStream(r *Run) {
 			r.Emit(c, replayers["determ"](r, f))
 		}
 	}
+	// same-named struct types, rendered in sequence in this process (implementation only: no case line)
+	if r.Shard == 0 {
+		sameNamedTypesFamily(r)
+	}
 	// a fixed family: maps whose keys stress the key order itself — integer keys of every width that
 	// are large and closely spaced (beyond float64 precision), negative, mixed magnitudes; many string
 	// keys sharing prefixes — consumed by every construct that iterates or converts a map
